@@ -182,9 +182,22 @@ theorem rational_volume_transforms {d : ℕ} {S : Shape K} (h : ShapeWF d S) (h3
 /-! ### bridges from the object-level well-formedness records -/
 
 theorem ShapeWF.of_surfWF {e : ℕ} {S : Shape K} (h : SurfWF e S) (d : ℕ) (he : e = if S.rat then d + 1 else d)
-    (hw : S.rat = true → ∀ pt ∈ S.net, 0 < pt.getD d 0) : ShapeWF d S := by
+    (hw : S.rat = true → ∀ pt ∈ S.net, 0 < pt.getD d 0) (hdeg : 1 ≤ S.deg 0 ∧ 1 ≤ S.deg 1) : ShapeWF d S := by
   have hp : S.pdim = 2 := h.degs
-  refine ⟨Or.inr (Or.inl hp), ?_, ?_, by rw [← he]; exact h.net, hw⟩
+  refine ⟨Or.inr (Or.inl hp), ?_, ?_, by rw [← he]; exact h.net, hw, ?_, ?_⟩
+  rotate_left 2
+  · intro i hi
+    rw [hp] at hi
+    rcases i with _ | _ | i
+    · exact h.dir0.len
+    · exact h.dir1.len
+    · omega
+  · intro i hi
+    rw [hp] at hi
+    rcases i with _ | _ | i
+    · exact hdeg.1
+    · exact hdeg.2
+    · omega
   · intro i hi
     rw [hp] at hi
     rcases i with _ | _ | i
@@ -196,9 +209,25 @@ theorem ShapeWF.of_surfWF {e : ℕ} {S : Shape K} (h : SurfWF e S) (d : ℕ) (he
     exact h.netlen
 
 theorem ShapeWF.of_volWF {e : ℕ} {S : Shape K} (h : VolWF e S) (d : ℕ) (he : e = if S.rat then d + 1 else d)
-    (hw : S.rat = true → ∀ pt ∈ S.net, 0 < pt.getD d 0) : ShapeWF d S := by
+    (hw : S.rat = true → ∀ pt ∈ S.net, 0 < pt.getD d 0) (hdeg : 1 ≤ S.deg 0 ∧ 1 ≤ S.deg 1 ∧ 1 ≤ S.deg 2) :
+    ShapeWF d S := by
   have hp : S.pdim = 3 := h.degs
-  refine ⟨Or.inr (Or.inr hp), ?_, ?_, by rw [← he]; exact h.net, hw⟩
+  refine ⟨Or.inr (Or.inr hp), ?_, ?_, by rw [← he]; exact h.net, hw, ?_, ?_⟩
+  rotate_left 2
+  · intro i hi
+    rw [hp] at hi
+    rcases i with _ | _ | _ | i
+    · exact h.dir0.len
+    · exact h.dir1.len
+    · exact h.dir2.len
+    · omega
+  · intro i hi
+    rw [hp] at hi
+    rcases i with _ | _ | _ | i
+    · exact hdeg.1
+    · exact hdeg.2.1
+    · exact hdeg.2.2
+    · omega
   · intro i hi
     rw [hp] at hi
     rcases i with _ | _ | _ | i
